@@ -83,6 +83,29 @@ def run(chk):
     chk.traces += len(ldocs)
     chk.obligation("suite:load_then_add", fired > 0, "")
     chk.record_suite("load_then_add", {"cases": len(ldocs), "adds_after_load": fired})
+    # ... and the other way round: an object that already holds an image loads a document with a clashing one
+    acases = [dict(c, other_cell=(i % 2 == 0)) for i, c in enumerate(ldocs)]
+    ir = core.ImplRunner("ops_images", fn="impl_add_then_load", per_case_timeout=20.0)
+    try:
+        ares = ir.run(acases)
+    finally:
+        ir.close()
+    afired = 0
+    for c, r in zip(acases, ares):
+        small = {"doc": c["doc"], "other_cell": c["other_cell"]}
+        if not isinstance(r, list) or not r:
+            chk.violation("harness: %r" % (r,), small, "add_then_load")
+        elif r[0] == "refused":
+            afired += 1
+        elif r[0] == "accepted":
+            afired += 1
+            chk.violation("a manifest that holds an image loaded a document in which %s (cell %s/%s) has the same identity and different "
+                          "checksums, without an exception" % (r[3], r[1], r[2]), small, "add_then_load")
+        elif r[0] == "raised":
+            chk.violation("loading into a manifest that holds a clashing image raised %s (documented: ValueError)" % r[1], small, "add_then_load")
+    chk.add_cases([{"a": i} for i in range(len(acases))], [True] * len(acases))
+    chk.obligation("suite:add_then_load", afired > 0, "")
+    chk.record_suite("add_then_load", {"cases": len(acases), "loads_into_holding_manifest": afired})
     # documents that already contain a clash (in any pair of cells, 'src' buckets of older documents included): from 1.1 on they
     # are refused, a 1.0 document is exempt
     import copy as _copy
